@@ -1,6 +1,7 @@
 extern crate proc_macro;
 use proc_macro::TokenStream;
 use quote::quote;
+use syn::ext::IdentExt;
 use syn::spanned::Spanned;
 use syn::{parse_macro_input, DeriveInput};
 use syn::{Type, TypePath};
@@ -166,7 +167,8 @@ pub fn derive_from_deb822(input: TokenStream) -> TokenStream {
             let ident = &f.ident;
             // Get key either from the #[deb822(field = "foo")] attribute, or derive it from the
             // field name
-            let key = attrs.field.unwrap_or_else(||ident.as_ref().unwrap().to_string());
+            // (a raw identifier such as `r#type` names the field `type`)
+            let key = attrs.field.unwrap_or_else(||ident.as_ref().unwrap().unraw().to_string());
             let deserialize_with = if let Some(deserialize_with) = attrs.deserialize_with {
                 quote! { #deserialize_with }
             } else {
@@ -220,7 +222,7 @@ pub fn derive_to_deb822(input: TokenStream) -> TokenStream {
         let ident = &f.ident;
         let key = attrs
             .field
-            .unwrap_or_else(|| ident.as_ref().unwrap().to_string());
+            .unwrap_or_else(|| ident.as_ref().unwrap().unraw().to_string());
         let serialize_with = if let Some(serialize_with) = attrs.serialize_with {
             quote! { #serialize_with }
         } else {
